@@ -105,9 +105,18 @@ def showRes (row : Row) (res : Res) (tf : TrustedFile) (arms : List String) : St
     let tr := (tf != .absent) || res.storedTrusted
     s!"ok {statusName st} rej={boolStr rej} tr={boolStr tr}" ++ a
 
-def dstep (s : Unit) (toks : List String) : Unit × String :=
+/-- a long-lived store of the current case (`store` op), with the certificate it is asked about -/
+structure DState where
+  live : Option Live := Option.none
+  bits : Nat := 2048
+  time : TimeV := .valid
+
+def flagsArm (f : Flags) : String :=
+  "flags-tu" ++ boolStr f.trustUnknown ++ "sv" ++ boolStr f.skipVerify ++ "ct" ++ boolStr f.checkTime
+
+def dstep (s : DState) (toks : List String) : DState × String :=
   match toks with
-  | ["reset"] => (s, "ok")
+  | ["reset"] => ({}, "ok")
   | ["val", tu, sv, ct, rd, ir, td, tf, pol, bits, tm, ho, ur] =>
     match parseRow? [tu, sv, ct, rd, ir, td, tf, pol, bits, tm, ho, ur] with
     | some (row, pol, bits, hoN, tf) =>
@@ -141,8 +150,44 @@ def dstep (s : Unit) (toks : List String) : Unit × String :=
         let res := showRes row2 r2 tf2 ([flagArm, seqArm] ++ extra)
         if r2.status.isNone then (s, res) else (s, "ok " ++ statusName st1 ++ " then " ++ res)
     | _, _, _, _ => (s, "bad-op")
+  | ["store", rd, ir, td, tf, bits, tm] =>
+    -- a fresh `CertificateStore::new` (default flags) over a directory in the given state
+    match parseBool? rd, parseBool? ir, parseBool? td, tf.toNat?.bind trustedOf?, bits.toNat?, tm.toNat?.bind timeOf? with
+    | some rd, some ir, some td, some tf, some bits, some tm =>
+      if (ir && !rd) || (tf != .absent && !td) then (s, "bad-op") else
+      ({ live := some ⟨Flags.new, rd, ir, td, tf⟩, bits := bits, time := tm }, "ok @@ store")
+    | _, _, _, _, _, _ => (s, "bad-op")
+  | [setter, b] =>
+    match s.live, parseBool? b with
+    | some l, some b =>
+      let f? : Option Flags :=
+        if setter = "setskip" then some (l.flags.setSkip b)
+        else if setter = "settime" then some (l.flags.setTime b)
+        else if setter = "settrust" then some (l.flags.setTrust b)
+        else Option.none
+      match f? with
+      | some f =>
+        let arm := setter ++ "-" ++ boolStr b ++ (if f = l.flags then "-unchanged" else "-changes")
+        ({ s with live := some { l with flags := f } }, "ok @@ " ++ arm)
+      | Option.none => (s, "bad-op")
+    | _, _ => (s, "bad-op")
+  | ["check", pol, ho, ur] =>
+    match s.live, parsePolicy? pol, ho.toNat?.bind hostOf?, ur.toNat?.bind uriOf? with
+    | some l, some pol, some hov, some urv =>
+      let (r, l') := l.check (keyCheck pol s.bits) s.time hov urv
+      let row : Row := ⟨l.flags.trustUnknown, l.flags.skipVerify, l.flags.checkTime, l.rejDir, l.inRej, l.trDir,
+                        l.trusted, keyCheck pol s.bits, s.time, hov, urv⟩
+      let arms := ["check", flagsArm l.flags] ++
+        (match (rowArms row pol s.bits (ho.toNat?.getD 0)).find? (·.startsWith "exit-") with
+         | some e => ["check+" ++ e, "check+" ++ e ++ "+" ++ flagsArm l.flags] | Option.none => [])
+      match r.status with
+      | Option.none => (s, "panic @@ " ++ ",".intercalate arms)
+      | some st =>
+        ({ s with live := some l' },
+         s!"ok {statusName st} rej={boolStr l'.inRej} tr={boolStr (l'.trusted != .absent)} @@ " ++ ",".intercalate arms)
+    | _, _, _, _ => (s, "bad-op")
   | _ => (s, "bad-op")
 
-def driver : Driver := { σ := Unit, init := (), step := dstep }
+def driver : Driver := { σ := DState, init := {}, step := dstep }
 
 end OpcuaVerif.C18
